@@ -415,6 +415,12 @@ class MuxServer(BaseServer):
     if kind == 'reset':
       conn.server_reset(delay)
       return
+    if spec.get('tping'):
+      # the server checks on the client while it works on the request: a Tping
+      # of its own (control frames carry tag 1); nothing a client may mistake
+      # for the answer to one of its requests
+      self.loop.note('srv%d.tping' % self.endpoint.index, conn.id)
+      conn.server_send(mux_frame(T_PING, 1, b''), delay * 0.5)
     if 'deliver_at' in spec:
       self.loop.schedule_at(spec['deliver_at'] - conn.ep.latency, self.reply, conn, r, spec, kind='srv.reply')
     else:
